@@ -142,13 +142,17 @@ Print Assumptions C15_crash_cycle_keeps_synced.
 Theorem C15_durable_across_cycles_partial :
   forall (crc : bytes -> bytes) (valid : bytes -> bool),
   (forall d, length (crc d) = 4%nat) -> valid [] = false ->
-  forall (hl tl : Z) (ops : list dop), Forall (okop valid) ops ->
-    (exists j, jsteps (J [] [] []) ops j /\
-               JInv crc valid (fold_left (dstep crc valid) ops (init hl tl)) j)
+  (* the directory may already hold rolled files numbered base, base+1, ... for ANY base (file
+     numbers of any magnitude); [pre] = their records *)
+  forall (hl tl base : Z) (pre : list (list bytes)) (ops : list dop),
+    Forall (okrec valid) (concat pre) -> Forall (okop valid) ops ->
+    (exists j, jsteps (J pre [] []) ops j /\
+               JInv crc valid (fold_left (dstep crc valid) ops (init_at crc hl tl base pre)) j)
     \/ CrcCollision crc.
 Proof.
-  intros crc valid H1 H2 hl tl ops Hops.
-  exact (dsteps_refine crc valid H1 H2 ops (init hl tl) (J [] [] []) (init_inv crc valid hl tl) Hops).
+  intros crc valid H1 H2 hl tl base pre ops Hpre Hops.
+  exact (dsteps_refine crc valid H1 H2 ops (init_at crc hl tl base pre) (J pre [] [])
+           (init_at_inv crc valid hl tl base pre Hpre) Hops).
 Qed.
 Print Assumptions C15_durable_across_cycles_partial.
 
@@ -172,6 +176,16 @@ Theorem C15_reader_returns_journal :
     read_all crc valid true s = (concat fs ++ hs ++ hu, TEof).
 Proof. intros crc valid H1. exact (inv_read_all crc valid H1). Qed.
 Print Assumptions C15_reader_returns_journal.
+
+(* rolled files are numbered contiguously from any base; rotation gives the head the number
+   maxIndex (so a group whose files are numbered 999, 1000 continues with 1001) *)
+Example C15_large_indices_nonvacuous :
+  let s0 := init_at crc32c_be 0 0 999 [[[10; 2; 8; 1]%N]; [[10; 2; 8; 2]%N]] in
+  disk_indices s0 = [999; 1000] /\
+  disk_indices (rotate (open_wal crc32c_be s0 [10; 2; 8; 3]%N)) = [999; 1000; 1001] /\
+  gmin (open_wal crc32c_be s0 [10; 2; 8; 3]%N) = 999 /\
+  gmax (open_wal crc32c_be (rotate (open_wal crc32c_be s0 [10; 2; 8; 3]%N)) [10; 2; 8; 4]%N) = 1002.
+Proof. vm_compute. repeat split; reflexivity. Qed.
 
 (* ---- non-vacuity and the F8 witness, on concrete data with the real CRC-32C ---- *)
 Definition ex_r1 : bytes := [10; 2; 8; 1; 18; 4; 26; 2; 8; 1]%N.
